@@ -111,7 +111,22 @@ Definition mon_records_deleted (c : da_case) : bool :=
        division dust (same bound as monitor 1);
    6.  what the state records for an unresolved item (its frozen publish collateral + one frozen
        invalidity collateral per stored record) is what was deposited for it. *)
-Inductive c08_case := GCase (ghost : list (Z * list Z)) (c : da_case).
+Inductive c08_case :=
+| GCase (ghost : list (Z * list Z)) (c : da_case)
+(* collateral lists (denom id, amount) as written, offered to the real MsgUpdateParams, and whether
+   it accepted them *)
+| PCase (pc ic : list (Z * Z)) (accepted : bool).
+
+(* sdk.Coins.IsValid: strictly ascending denoms (no duplicates), every amount positive; the empty
+   list is valid.  Only such lists can be parameters: the handlers charge under IsAllPositive and the
+   end blocker pays with Coins.Add, which agree on valid lists only. *)
+Fixpoint coins_valid_from (last : option Z) (l : list (Z * Z)) : bool :=
+  match l with
+  | [] => true
+  | (d, a) :: l' => (0 <? a) && (match last with Some d0 => d0 <? d | None => true end) &&
+                    coins_valid_from (Some d) l'
+  end.
+Definition coins_valid (l : list (Z * Z)) : bool := coins_valid_from None l.
 
 Fixpoint dep_of (u : Z) (g : list (Z * list Z)) : option (list Z) :=
   match g with
@@ -119,8 +134,8 @@ Fixpoint dep_of (u : Z) (g : list (Z * list Z)) : option (list Z) :=
   | (u', v) :: g' => if u' =? u then Some v else dep_of u g'
   end.
 
-Definition mon_history_conserved (h : c08_case) : bool :=
-  let '(GCase g (Case pre preb o now r post postb)) := h in
+Definition mon_history_conserved (g : list (Z * list Z)) (c : da_case) : bool :=
+  let '(Case pre preb o now r post postb) := c in
   if is_msg o || negb (r =? 0) then true else
   forallb (fun d =>
     let paid := fold_right (fun x acc =>
@@ -132,8 +147,8 @@ Definition mon_history_conserved (h : c08_case) : bool :=
     let dust := bal (bank_of postb) MODULE d - bal (bank_of preb) MODULE d + paid in
     (0 <=? dust) && (dust <=? dust_bound pre post)) (nat_range (n_denoms preb)).
 
-Definition mon_recorded_is_deposited (h : c08_case) : bool :=
-  let '(GCase g (Case pre preb o now r post postb)) := h in
+Definition mon_recorded_is_deposited (g : list (Z * list Z)) (c : da_case) : bool :=
+  let '(Case pre preb o now r post postb) := c in
   forallb (fun d =>
     forallb (fun x =>
       if unresolved x then
@@ -144,11 +159,16 @@ Definition mon_recorded_is_deposited (h : c08_case) : bool :=
       else true) (s_items pre)) (nat_range (n_denoms preb)).
 
 Definition c08_check (h : c08_case) : list Z :=
-  let '(GCase g c) := h in
-  flag 0 (corr_state c && corr_bank c) ++
-  flag 1 (mon_module_holds_open c && mon_history_conserved h) ++ flag 2 (mon_payouts c) ++
-  flag 3 (mon_no_new_orphan c) ++ flag 4 (mon_conserved c) ++ flag 5 (mon_records_deleted c) ++
-  flag 6 (mon_recorded_is_deposited h) ++
-  flag 101 (negb (c08_trig 1 c)) ++ flag 102 (negb (c08_trig 2 c)).
+  match h with
+  | GCase g c =>
+      flag 0 (corr_state c && corr_bank c) ++
+      flag 1 (mon_module_holds_open c && mon_history_conserved g c) ++ flag 2 (mon_payouts c) ++
+      flag 3 (mon_no_new_orphan c) ++ flag 4 (mon_conserved c) ++ flag 5 (mon_records_deleted c) ++
+      flag 6 (mon_recorded_is_deposited g c) ++
+      flag 101 (negb (c08_trig 1 c)) ++ flag 102 (negb (c08_trig 2 c))
+  | PCase pc ic accepted =>
+      (* the real parameter validation accepts exactly the valid collateral lists *)
+      flag 0 (Bool.eqb accepted (coins_valid pc && coins_valid ic))
+  end.
 
 Definition run := run_cases c08_check.
